@@ -140,6 +140,49 @@ pub fn gen_c05(out: &mut dyn Write, seed: u64, thorough: bool) {
             emit(out, &mut hist, &cw, true);
         }
     }
+    // Base 256 fields with one- and two-codeword length (and length 0 = to the end), built here with an
+    // independent 255-state randomisation, complete and cut short by 1..6 codewords and at random places,
+    // with a declared length one too large / too small, followed by padding or an ASCII codeword
+    {
+        let rand255 = |v: u8, pos1: usize| -> u8 { ((v as usize + (149 * pos1) % 255 + 1) % 256) as u8 };
+        let mut n_b256 = 0usize;
+        for n in [0usize, 1, 2, 3, 248, 249, 250, 251, 252, 300, 499, 500, 501, 749, 750, 1000, 1554, 1555] {
+            for prefix in [&[][..], &[66u8][..], &[142u8, 66][..]] {
+                for form in 0..4usize {
+                    // 0: exact explicit length, 1: length 0 (to the end), 2: declared length n+1, 3: declared n-1
+                    let declared = match form { 0 => n, 1 => 0, 2 => n + 1, _ => n.saturating_sub(1) };
+                    if form != 1 && (declared == 0 || declared > 1555) { continue; }
+                    let mut field: Vec<u8> = vec![];
+                    if declared <= 249 { field.push(declared as u8); } else { field.push((declared / 250 + 249) as u8); field.push((declared % 250) as u8); }
+                    field.extend((0..n).map(|i| (i * 7 + 128) as u8));
+                    let mut cw: Vec<u8> = prefix.to_vec();
+                    cw.push(231);
+                    for v in field {
+                        let pos1 = cw.len() + 1;
+                        cw.push(rand255(v, pos1));
+                    }
+                    let mut variants: Vec<Vec<u8>> = vec![cw.clone()];
+                    for cut in 1..=6usize {
+                        if cw.len() > cut { variants.push(cw[..cw.len() - cut].to_vec()); }
+                    }
+                    for _ in 0..2 {
+                        variants.push(cw[..rng.below(cw.len() + 1)].to_vec());
+                    }
+                    let mut padded = cw.clone();
+                    padded.push(129);
+                    variants.push(padded);
+                    let mut tail = cw.clone();
+                    tail.push(66);
+                    variants.push(tail);
+                    for v in variants {
+                        n_b256 += 1;
+                        emit(out, &mut hist, &v, n <= 3 || form == 0);
+                    }
+                }
+            }
+        }
+        hist.insert("base256_field_streams".into(), n_b256);
+    }
     // grammar-aware mutations of valid streams
     let n = if thorough { 400000 } else { 30000 };
     for _ in 0..n {
